@@ -3600,7 +3600,7 @@ class White(Token):
         self.matchWhite = ws
         self.set_whitespace_chars(
             "".join(c for c in self.whiteStrs if c not in self.matchWhite),
-            copy_defaults=True,
+            copy_defaults=False,
         )
         # self.leave_whitespace()
         self._may_return_empty = True
